@@ -53,6 +53,12 @@ def plan(tier: str, seed: int) -> Plan:
         conds.append(Condition(f"options:{opts}", "options", H, "options",
                                {"opts": opts, "rawpaths": ["/a%20b/n", "/x\\u0041", "/a b/n", "/a%20b/c", "/n", "/xA"]}, T,
                                bounds="6 pointer texts on which uri_decode / unicode_escape make a difference x 3 operation lists"))
+    conds.append(Condition("options:escape-survives-decoding", "options", H, "options",
+                           {"opts": {}, "rawpaths": ["/\\u005cu0041", "/a\\u005c", "/n\\u005c\\u005c"]}, T, required=False,
+                           bounds="3 pointer texts whose decoded tokens still contain a backslash x 3 operation lists (known finding C15-printed-path-decoded-again)"))
+    conds.append(Condition("options:percent-survives-decoding", "options", H, "options",
+                           {"opts": {"uri_decode": True}, "rawpaths": ["/a%2541", "/%2525"]}, T, required=False,
+                           bounds="2 pointer texts whose URI-decoded tokens still contain a percent sign x 3 operation lists (same known finding)"))
     conds.append(Condition("variants", "variants", H, "variants", {}, T * 2,
                            bounds="add vs addne vs addap on 16 target locations (digit-named object members included), document with symbolic leaves and array length<=2"))
     return Plan(
